@@ -33,7 +33,10 @@ import time
 
 VERIF = os.path.dirname(os.path.abspath(__file__))
 REPO = os.environ.get("VERIF_REPO", "/repo")
-BUILD = os.path.join(VERIF, ".build")
+# VERIF_OUTDIR redirects build scratch, evidence and replay files (used when running against a scratch worktree
+# with a seeded change, so that /verif/evidence is only ever written by runs against /repo itself).
+OUTDIR = os.environ.get("VERIF_OUTDIR", VERIF)
+BUILD = os.path.join(OUTDIR, ".build")
 GOROOT_BIN = "/root/go/pkg/mod/golang.org/toolchain@v0.0.1-go1.24.0.linux-amd64/bin"
 MODPATH = "github.com/ethereum/go-ethereum"
 
@@ -330,7 +333,7 @@ def main():
     for r, kind in infra:
         if kind == "crash":
             crash_viol.append(r)
-    rdir = os.path.join(VERIF, "replay", cid)
+    rdir = os.path.join(OUTDIR, "replay", cid)
     lines = []
     if (new_viol or crash_viol) and not replay:
         shutil.rmtree(rdir, ignore_errors=True)
@@ -385,8 +388,8 @@ def main():
     ev = {"property_id": cid, "tier": tier, "seed": seed, "level": check["level"], "coverage": cov,
           "assumptions": assumptions, "wall_s": round(wall, 2), "violations": len(lines)}
     if not replay:
-        os.makedirs(os.path.join(VERIF, "evidence"), exist_ok=True)
-        with open(os.path.join(VERIF, "evidence", cid + ".json"), "w") as f:
+        os.makedirs(os.path.join(OUTDIR, "evidence"), exist_ok=True)
+        with open(os.path.join(OUTDIR, "evidence", cid + ".json"), "w") as f:
             json.dump(ev, f, indent=1)
     summary = "%s %s: evaluations=%d distinct=%d states=%s transitions=%s exhaustive=%s wall=%.1fs" % (
         cid, tier, cov["evaluations"], cov["distinct_nontrivial"], cov.get("states", "-"), cov.get("transitions", "-"),
